@@ -13,6 +13,7 @@ from typing import Type
 from .builtin import DictLoader
 from .builtin import register_default_tags_and_filters
 from .exceptions import LiquidError
+from .exceptions import LiquidSyntaxError
 from .lexer import Lexer
 from .parser import Parser
 from .template import Template
@@ -132,7 +133,14 @@ class Environment:
 
     def parse(self, source: str) -> list[Node]:
         """Compile template source text and return an abstract syntax tree."""
-        return self.parser.parse(self.tokenize(source))
+        try:
+            return self.parser.parse(self.tokenize(source))
+        except RecursionError as err:
+            # Blocks nested, or an expression chained, deeper than the interpreter's
+            # stack allows.
+            raise LiquidSyntaxError(
+                "the template is nested too deeply to parse", token=None
+            ) from err
 
     def from_string(
         self,
